@@ -3,5 +3,5 @@ CONSTANTS
   Fudge = 300
   Dts <- MC_Dts
   Tampers <- MC_Tampers
-INVARIANTS C13_EffectOnlyIfValid C13_HonoursAuthentic C13_SignedReply
+INVARIANTS C13_EffectOnlyIfValid C13_HonoursAuthentic C13_SignedReply C13_NoOracle
 CHECK_DEADLOCK FALSE
